@@ -118,7 +118,18 @@ def _generator(name, tmp, source):
     if name == "list1":
         return generation.ListGenerator([Event(_particle(0, (0.9, 0.8)))])
     if name == "list3":
-        return generation.ListGenerator([Event([_particle(0, (0.9, 0.8)), _particle(1, (0.2, 0.3)), _particle(2, (0.7, 0.4))]),
+        # third particle: in the firn (index 1.47 instead of 1.78 at depth), seen from the first antenna 11 degrees from its
+        # direction of motion: 36 degrees inside its own Cherenkov cone (47 deg) but 45 degrees inside the deep-ice cone (56 deg),
+        # i.e. on different sides of a 40 degree off-cone cut depending on whose Cherenkov angle is used
+        from pyrex.ray_tracing import SpecializedRayTracer
+        from pyrex.ice_model import AntarcticIce
+        p2 = _particle(2, (0.7, 0.4))
+        p2.vertex = np.array([150.0, 40.0, -25.0])
+        e = np.asarray(SpecializedRayTracer(p2.vertex, (0.0, 0.0, -100.0), AntarcticIce()).solutions[0].emitted_direction, float)
+        perp = np.cross(e, [0.0, 0.0, 1.0])
+        perp = perp / np.linalg.norm(perp)
+        p2.direction = np.cos(np.radians(11.0)) * e + np.sin(np.radians(11.0)) * perp
+        return generation.ListGenerator([Event([_particle(0, (0.9, 0.8)), _particle(1, (0.2, 0.3)), p2]),
                                          Event(_particle(1, (0.6, 0.9)))])
     class M(Interaction):
         def choose_interaction(self):
